@@ -4,6 +4,7 @@
 package interp
 
 import (
+	"os"
 	"bytes"
 	"context"
 	"encoding/gob"
@@ -67,6 +68,28 @@ func init() {
 	gob.Register(spec.GobVal{})
 	key := frame.FreshKey()
 	frame.RegisterOps(func(slice []spec.CustomVal) frame.Ops {
+		if os.Getenv("VERIF_CUSTOM_CODEC") == "gob" {
+			// The other legitimate way to write a custom codec: hand the rows to the
+			// stream's own gob encoder and decode IN PLACE into the column. gob leaves
+			// fields that were zero on the wire untouched, so this decoder relies on
+			// the destination rows being zeroed before it is called.
+			return frame.Ops{
+				Encode: func(e frame.Encoder, i, j int) error { return e.Encode(slice[i:j]) },
+				Decode: func(d frame.Decoder, i, j int) error {
+					dst := slice[i:j:j]
+					if err := d.Decode(&dst); err != nil {
+						return err
+					}
+					if len(dst) != j-i {
+						return fmt.Errorf("custom codec: %d records for %d rows", len(dst), j-i)
+					}
+					if j > i && &dst[0] != &slice[i] {
+						copy(slice[i:j], dst)
+					}
+					return nil
+				},
+			}
+		}
 		return frame.Ops{
 			Encode: func(e frame.Encoder, i, j int) error {
 				var b bytes.Buffer
@@ -561,6 +584,12 @@ var (
 
 // ScanAll reads every row of a scanner for a slice of type t.
 func ScanAll(ctx context.Context, t spec.Type, sc *sliceio.Scanner) ([]spec.Row, error) {
+	return ScanAllPaced(ctx, t, sc, nil)
+}
+
+// ScanAllPaced is ScanAll with a consumer that may take its time: each is called
+// with the number of rows received so far, after every row.
+func ScanAllPaced(ctx context.Context, t spec.Type, sc *sliceio.Scanner, each func(n int)) ([]spec.Row, error) {
 	cts := colTypes(t)
 	ptrs := make([]interface{}, len(cts))
 	vals := make([]reflect.Value, len(cts))
@@ -587,6 +616,9 @@ func ScanAll(ctx context.Context, t spec.Type, sc *sliceio.Scanner) ([]spec.Row,
 			}
 		}
 		rows = append(rows, r)
+		if each != nil {
+			each(len(rows))
+		}
 	}
 	return rows, sc.Err()
 }
